@@ -100,9 +100,16 @@ impl CompoundSelector {
             .retain(|p| !original.pseudo.iter().any(|o| p == o));
     }
 
-    pub(super) fn resolve_ref_in_pseudo(&mut self, ctx: &CssSelectorSet) {
-        self.pseudo =
-            self.pseudo.drain(..).map(|p| p.resolve_ref(ctx)).collect();
+    pub(super) fn resolve_ref_in_pseudo(
+        &mut self,
+        ctx: &CssSelectorSet,
+    ) -> Result<(), ParseError> {
+        self.pseudo = self
+            .pseudo
+            .drain(..)
+            .map(|p| p.resolve_ref(ctx))
+            .collect::<Result<_, _>>()?;
+        Ok(())
     }
 
     pub(super) fn replace_in_pseudo(
